@@ -436,6 +436,8 @@ class SymFloat:
 
     # arithmetic with arrays -> elementwise
     def _bin(self, o, f, swap=False):
+        if isinstance(o, MaskedSelection):
+            return NotImplemented           # scalar (op) x[mask]: the selection's reflected operator keeps the mask
         if _is_arr(o):
             if swap:
                 return ew(lambda a, b: f(tf(b), tf(a)), self, o)
